@@ -18,6 +18,7 @@ import os
 import shutil
 import stat
 import subprocess
+import time
 import zlib
 
 MODES = {"F": 0o100644, "X": 0o100755, "L": 0o120000}
@@ -269,7 +270,7 @@ class World:
             else:
                 os.unlink(p)
         g = self.git_dir
-        for rel in ("index", "index.lock", "ORIG_HEAD", "MERGE_HEAD", "packed-refs"):
+        for rel in ("index", "index.lock", "ORIG_HEAD", "MERGE_HEAD", "packed-refs", os.path.join("refs", "stash")):
             try:
                 os.unlink(os.path.join(g, rel))
             except FileNotFoundError:
@@ -577,6 +578,12 @@ class GitExec:
     def reset_mixed(self):
         self.w.git("reset", "-q", "--mixed", "HEAD")
 
+    def stash_push(self, how="porcelain"):
+        self.w.git("stash", "push", "-q")
+
+    def stash_pop(self, how="porcelain"):
+        self.w.git("stash", "pop", "-q", "--index")
+
     def status(self):
         return self.w.git_status(on_copy=False)
 
@@ -642,6 +649,26 @@ class DulExec:
 
     def reset_mixed(self):
         self.P.reset(self.w.root, "mixed", "HEAD")
+
+    def stash_push(self, how="porcelain"):
+        if how == "class":
+            from dulwich.repo import Repo
+            from dulwich.stash import Stash
+            with Repo(self.w.root) as r:
+                Stash.from_repo(r).push(committer=IDENT, author=IDENT)
+        else:
+            self.P.stash_push(self.w.root)
+
+    def stash_pop(self, how="porcelain"):
+        # racy-git is not part of the property: what pop writes must not share a time stamp with what push wrote
+        time.sleep(0.02)
+        if how == "class":
+            from dulwich.repo import Repo
+            from dulwich.stash import Stash
+            with Repo(self.w.root) as r:
+                Stash.from_repo(r).pop(0)
+        else:
+            self.P.stash_pop(self.w.root)
 
     def status(self):
         st = self.P.status(self.w.root, untracked_files="all")
